@@ -1,6 +1,6 @@
 use super::{Error, ShapeType};
 
-use crate::record::BBoxZ;
+use crate::record::{BBoxZ, PointZ};
 use byteorder::{BigEndian, LittleEndian, ReadBytesExt, WriteBytesExt};
 use std::io::{Read, Write};
 
@@ -30,7 +30,12 @@ pub struct Header {
 impl Default for Header {
     fn default() -> Self {
         Header {
-            bbox: BBoxZ::default(),
+            // not BBoxZ::default(): the default measure of a point is NO_DATA, and the
+            // ranges of a header nothing was written to are all 0
+            bbox: BBoxZ {
+                min: PointZ::new(0.0, 0.0, 0.0, 0.0),
+                max: PointZ::new(0.0, 0.0, 0.0, 0.0),
+            },
             shape_type: ShapeType::NullShape,
             file_length: HEADER_SIZE / 2,
             version: 1000,
